@@ -83,7 +83,10 @@ def pipeline(ctx, forest, cases):
     for idx, (nm, spec, root, d) in enumerate(cases[:n]):
         rec = os.path.join(forest.dir, b"rec%d" % idx)
         env = dict(xc.ENV, FUV_RECORD=rec.decode())
-        extra = rng.choice([[], ["-n", "3"], ["-s", "600"]])
+        exp = [nc.join_ref(root, list(names)) for names in nc.listing(spec)]
+        # a size limit that still admits the longest record next to the command (otherwise xargs rightly refuses it, C04/C06's subject)
+        smax = max(600, max(len(x) for x in exp) + len(fw.FUV) + 64)
+        extra = rng.choice([[], ["-n", "3"], ["-s", str(smax)]])
         p1 = subprocess.Popen([fw.FIND, root.decode(), "-sorted", "-print0"], stdout=subprocess.PIPE, stderr=subprocess.DEVNULL, cwd=forest.dir, env=env)
         p2 = subprocess.Popen([fw.XARGS, "-0"] + extra + [fw.FUV, "record"], stdin=p1.stdout, stdout=subprocess.DEVNULL, stderr=subprocess.DEVNULL,
                               cwd=forest.dir, env=env)
@@ -95,7 +98,6 @@ def pipeline(ctx, forest, cases):
             for line in open(rec):
                 got += [fw.unhex(x) for x in line.split()[1:]]
             os.remove(rec)
-        exp = [nc.join_ref(root, list(names)) for names in nc.listing(spec)]
         ctx.count(("pipe", nm, root, tuple(extra), ctx.seed), True, "pipeline")
         if got != exp or rc1 != 0 or rc2 != 0:
             bad.append((root, extra, rc1, rc2, got, exp, spec))
